@@ -277,7 +277,7 @@ func CountEvents(fn *ssa.Function, event func(ssa.Instruction) CountSet) []PathE
 				}
 				return 0
 			case *ssa.Panic:
-				if exits != nil {
+				if exits != nil && !isSelectFallthroughPanic(x) {
 					*exits = append(*exits, PathExit{x, ExitPanic, st})
 				}
 				return 0
@@ -550,4 +550,118 @@ func Unwrap(fn *ssa.Function) *ssa.Function {
 		fn = callee
 	}
 	return fn
+}
+
+// ---- select helpers -----------------------------------------------------------
+
+// isSelectFallthroughPanic recognises the synthetic panic go/ssa emits after the
+// last arm of a blocking select ("blocking select matched no case").
+func isSelectFallthroughPanic(in ssa.Instruction) bool {
+	p, ok := in.(*ssa.Panic)
+	if !ok {
+		return false
+	}
+	mi, ok := p.X.(*ssa.MakeInterface)
+	if !ok {
+		return false
+	}
+	c, ok := mi.X.(*ssa.Const)
+	return ok && c.Value != nil && strings.Contains(c.Value.ExactString(), "blocking select matched no case")
+}
+
+// SelectArms maps each state index of a select to the block executed when that
+// state fired; arms[-1] is the default arm of a non-blocking select.
+func SelectArms(sel *ssa.Select) map[int]*ssa.BasicBlock {
+	arms := map[int]*ssa.BasicBlock{}
+	var idx ssa.Value
+	for _, ref := range *sel.Referrers() {
+		if e, ok := ref.(*ssa.Extract); ok && e.Index == 0 {
+			idx = e
+		}
+	}
+	if idx == nil {
+		return arms
+	}
+	var lastElse *ssa.BasicBlock
+	for _, ref := range *idx.Referrers() {
+		b, ok := ref.(*ssa.BinOp)
+		if !ok || b.Op != token.EQL {
+			continue
+		}
+		k, isC := constInt(b.Y)
+		if !isC {
+			continue
+		}
+		for _, r2 := range *b.Referrers() {
+			if iff, ok := r2.(*ssa.If); ok {
+				arms[int(k)] = iff.Block().Succs[0]
+				if int(k) == len(sel.States)-1 {
+					lastElse = iff.Block().Succs[1]
+				}
+			}
+		}
+	}
+	if !sel.Blocking && lastElse != nil {
+		arms[-1] = lastElse
+	}
+	return arms
+}
+
+// SelectRecvValue returns the value received by state k of a select (nil if unused).
+func SelectRecvValue(sel *ssa.Select, k int) ssa.Value {
+	// tuple layout: index, recvOk, then one value per receive state in order
+	pos := 2
+	for i, st := range sel.States {
+		if st.Dir == types.RecvOnly {
+			if i == k {
+				for _, ref := range *sel.Referrers() {
+					if e, ok := ref.(*ssa.Extract); ok && e.Index == pos {
+						return e
+					}
+				}
+				return nil
+			}
+			pos++
+		}
+	}
+	return nil
+}
+
+// BlockReaches: is block `to` reachable from block `from` (inclusive)?
+func BlockReaches(from, to *ssa.BasicBlock) bool {
+	seen := map[*ssa.BasicBlock]bool{}
+	var walk func(b *ssa.BasicBlock) bool
+	walk = func(b *ssa.BasicBlock) bool {
+		if b == to {
+			return true
+		}
+		if seen[b] {
+			return false
+		}
+		seen[b] = true
+		for _, s := range b.Succs {
+			if walk(s) {
+				return true
+			}
+		}
+		return false
+	}
+	return walk(from)
+}
+
+// InstrReaches: can control flow from just after a reach b?
+func InstrReaches(a, b ssa.Instruction) bool {
+	hit := ReachAvoiding(a.Parent(), a, nil, func(in ssa.Instruction) bool { return in == b })
+	return len(hit) > 0
+}
+
+// InLoop reports whether the instruction's block lies on a CFG cycle.
+func InLoop(in ssa.Instruction) bool {
+	b := in.Block()
+	for _, s := range b.Succs {
+		if BlockReaches(s, b) {
+			return true
+		}
+	}
+	return false
 }
